@@ -83,6 +83,10 @@ type BacktrackerState struct {
 	// When true, explores all branches to find the longest match instead of
 	// returning on the first match found.
 	Longest bool
+
+	// stack holds the pending alternatives of the depth-first search (explore). It is
+	// empty between searches; its backing array is reused.
+	stack []backtrackJob
 }
 
 // NewBoundedBacktracker creates a new bounded backtracker for the given NFA.
@@ -363,290 +367,167 @@ func (b *BoundedBacktracker) SearchAtWithState(haystack []byte, at int, state *B
 	return -1, -1, false
 }
 
-// backtrackWithState performs recursive backtracking search for IsMatch.
-// Returns true if a match is found from the given (pos, state).
-// This method uses external state for thread safety.
-//
-//nolint:gocyclo,cyclop // complexity is inherent to state machine dispatch
-func (b *BoundedBacktracker) backtrackWithState(haystack []byte, pos int, nfaState StateID, st *BacktrackerState) bool {
-	// Check bounds
-	if nfaState == InvalidState || int(nfaState) >= b.numStates {
-		return false
-	}
-
-	// Check and mark visited
-	if !b.shouldVisit(st, nfaState, pos) {
-		return false
-	}
-
-	s := b.nfa.State(nfaState)
-	if s == nil {
-		return false
-	}
-
-	switch s.Kind() {
-	case StateMatch:
-		return true
-
-	case StateByteRange:
-		lo, hi, next := s.ByteRange()
-		if pos < len(haystack) {
-			c := haystack[pos]
-			if c >= lo && c <= hi {
-				return b.backtrackWithState(haystack, pos+1, next, st)
-			}
-		}
-		return false
-
-	case StateSparse:
-		if pos >= len(haystack) {
-			return false
-		}
-		c := haystack[pos]
-		for _, tr := range s.Transitions() {
-			if c >= tr.Lo && c <= tr.Hi {
-				return b.backtrackWithState(haystack, pos+1, tr.Next, st)
-			}
-		}
-		return false
-
-	case StateSplit:
-		left, right := s.Split()
-		// Try left branch first (greedy), then right
-		return b.backtrackWithState(haystack, pos, left, st) || b.backtrackWithState(haystack, pos, right, st)
-
-	case StateEpsilon:
-		return b.backtrackWithState(haystack, pos, s.Epsilon(), st)
-
-	case StateCapture:
-		_, _, next := s.Capture()
-		return b.backtrackWithState(haystack, pos, next, st)
-
-	case StateLook:
-		look, next := s.Look()
-		if checkLookAssertion(look, haystack, pos) {
-			return b.backtrackWithState(haystack, pos, next, st)
-		}
-		return false
-
-	case StateRuneAny:
-		// Match any rune (including newline)
-		if pos < len(haystack) {
-			width := runeWidth(haystack[pos:])
-			if width > 0 {
-				return b.backtrackWithState(haystack, pos+width, s.RuneAny(), st)
-			}
-		}
-		return false
-
-	case StateRuneAnyNotNL:
-		// Match any rune except newline
-		if pos < len(haystack) && haystack[pos] != '\n' {
-			width := runeWidth(haystack[pos:])
-			if width > 0 {
-				return b.backtrackWithState(haystack, pos+width, s.RuneAnyNotNL(), st)
-			}
-		}
-		return false
-
-	case StateFail:
-		return false
-	}
-
-	return false
+// backtrackJob is a pending alternative of the depth-first search: the second branch
+// of a split, to be explored from pos once the first branch has failed.
+type backtrackJob struct {
+	state StateID
+	pos   int
 }
 
-// backtrackFindWithState performs recursive backtracking to find match end position.
+// backtrackWithState performs the backtracking search for IsMatch.
+// Returns true if a match is found from the given (pos, state).
+// This method uses external state for thread safety.
+func (b *BoundedBacktracker) backtrackWithState(haystack []byte, pos int, nfaState StateID, st *BacktrackerState) bool {
+	return b.explore(haystack, pos, nfaState, st, false) >= 0
+}
+
+// backtrackFindWithState performs backtracking to find the match end position:
+// the end of the first match in priority order (left branch of a split first).
 // Returns end position if match found, -1 otherwise.
 // This method uses external state for thread safety.
-//
-//nolint:gocyclo,cyclop // complexity is inherent to state machine dispatch
 func (b *BoundedBacktracker) backtrackFindWithState(haystack []byte, pos int, nfaState StateID, st *BacktrackerState) int {
-	// Check bounds
-	if nfaState == InvalidState || int(nfaState) >= b.numStates {
-		return -1
-	}
-
-	// Check and mark visited
-	if !b.shouldVisit(st, nfaState, pos) {
-		return -1
-	}
-
-	s := b.nfa.State(nfaState)
-	if s == nil {
-		return -1
-	}
-
-	switch s.Kind() {
-	case StateMatch:
-		return pos
-
-	case StateByteRange:
-		lo, hi, next := s.ByteRange()
-		if pos < len(haystack) {
-			c := haystack[pos]
-			if c >= lo && c <= hi {
-				return b.backtrackFindWithState(haystack, pos+1, next, st)
-			}
-		}
-		return -1
-
-	case StateSparse:
-		if pos >= len(haystack) {
-			return -1
-		}
-		c := haystack[pos]
-		for _, tr := range s.Transitions() {
-			if c >= tr.Lo && c <= tr.Hi {
-				return b.backtrackFindWithState(haystack, pos+1, tr.Next, st)
-			}
-		}
-		return -1
-
-	case StateSplit:
-		left, right := s.Split()
-		// Try left first, then right
-		if end := b.backtrackFindWithState(haystack, pos, left, st); end >= 0 {
-			return end
-		}
-		return b.backtrackFindWithState(haystack, pos, right, st)
-
-	case StateEpsilon:
-		return b.backtrackFindWithState(haystack, pos, s.Epsilon(), st)
-
-	case StateCapture:
-		_, _, next := s.Capture()
-		return b.backtrackFindWithState(haystack, pos, next, st)
-
-	case StateLook:
-		look, next := s.Look()
-		if checkLookAssertion(look, haystack, pos) {
-			return b.backtrackFindWithState(haystack, pos, next, st)
-		}
-		return -1
-
-	case StateRuneAny:
-		if pos < len(haystack) {
-			width := runeWidth(haystack[pos:])
-			if width > 0 {
-				return b.backtrackFindWithState(haystack, pos+width, s.RuneAny(), st)
-			}
-		}
-		return -1
-
-	case StateRuneAnyNotNL:
-		if pos < len(haystack) && haystack[pos] != '\n' {
-			width := runeWidth(haystack[pos:])
-			if width > 0 {
-				return b.backtrackFindWithState(haystack, pos+width, s.RuneAnyNotNL(), st)
-			}
-		}
-		return -1
-
-	case StateFail:
-		return -1
-	}
-
-	return -1
+	return b.explore(haystack, pos, nfaState, st, false)
 }
 
 // backtrackFindLongestWithState performs backtracking to find the longest match end position.
 // Unlike backtrackFindWithState, this explores ALL branches at splits to find the longest match.
 // Returns end position if match found, -1 otherwise.
 // This method uses external state for thread safety.
-//
-//nolint:gocyclo,cyclop // complexity is inherent to state machine dispatch
 func (b *BoundedBacktracker) backtrackFindLongestWithState(haystack []byte, pos int, nfaState StateID, st *BacktrackerState) int {
-	// Check bounds
-	if nfaState == InvalidState || int(nfaState) >= b.numStates {
-		return -1
-	}
+	return b.explore(haystack, pos, nfaState, st, true)
+}
 
-	// Check and mark visited
-	if !b.shouldVisit(st, nfaState, pos) {
-		return -1
-	}
-
-	s := b.nfa.State(nfaState)
-	if s == nil {
-		return -1
-	}
-
-	switch s.Kind() {
-	case StateMatch:
-		return pos
-
-	case StateByteRange:
-		lo, hi, next := s.ByteRange()
-		if pos < len(haystack) {
-			c := haystack[pos]
-			if c >= lo && c <= hi {
-				return b.backtrackFindLongestWithState(haystack, pos+1, next, st)
+// explore is the depth-first search behind the three methods above. It follows one
+// thread of the automaton until it dies or reaches a match state; at a split it goes
+// on with the left branch and pushes the right one on an explicit stack (kept in the
+// state, so a search does not allocate once warm), and when the thread dies it
+// resumes with the most recently pushed alternative. That is the order in which a
+// recursive descent visits the configurations, without using the goroutine stack:
+// the depth of the descent grows with the haystack (one level per byte of a loop),
+// and a recursive implementation overflows the stack on inputs of a few megabytes
+// (^[a-z]+ on 6 MB of letters).
+//
+// With longest=false it returns the end of the first match it reaches, with
+// longest=true the largest match end among all the configurations it can reach;
+// -1 if there is none. Configurations already in the visited table are skipped.
+//
+//nolint:gocyclo,cyclop,funlen // complexity is inherent to state machine dispatch
+func (b *BoundedBacktracker) explore(haystack []byte, pos int, nfaState StateID, st *BacktrackerState, longest bool) int {
+	stack := st.stack[:0]
+	best := -1
+	for {
+	thread:
+		for {
+			// Check bounds
+			if nfaState == InvalidState || int(nfaState) >= b.numStates {
+				break thread
 			}
-		}
-		return -1
-
-	case StateSparse:
-		if pos >= len(haystack) {
-			return -1
-		}
-		c := haystack[pos]
-		for _, tr := range s.Transitions() {
-			if c >= tr.Lo && c <= tr.Hi {
-				return b.backtrackFindLongestWithState(haystack, pos+1, tr.Next, st)
+			// Check and mark visited
+			if !b.shouldVisit(st, nfaState, pos) {
+				break thread
 			}
-		}
-		return -1
-
-	case StateSplit:
-		left, right := s.Split()
-		// For longest match: try BOTH branches and return the longer one
-		leftEnd := b.backtrackFindLongestWithState(haystack, pos, left, st)
-		rightEnd := b.backtrackFindLongestWithState(haystack, pos, right, st)
-
-		// Return the longer match (or the one that matched if only one did)
-		if leftEnd >= rightEnd {
-			return leftEnd
-		}
-		return rightEnd
-
-	case StateEpsilon:
-		return b.backtrackFindLongestWithState(haystack, pos, s.Epsilon(), st)
-
-	case StateCapture:
-		_, _, next := s.Capture()
-		return b.backtrackFindLongestWithState(haystack, pos, next, st)
-
-	case StateLook:
-		look, next := s.Look()
-		if checkLookAssertion(look, haystack, pos) {
-			return b.backtrackFindLongestWithState(haystack, pos, next, st)
-		}
-		return -1
-
-	case StateRuneAny:
-		if pos < len(haystack) {
-			width := runeWidth(haystack[pos:])
-			if width > 0 {
-				return b.backtrackFindLongestWithState(haystack, pos+width, s.RuneAny(), st)
+			s := b.nfa.State(nfaState)
+			if s == nil {
+				break thread
 			}
-		}
-		return -1
 
-	case StateRuneAnyNotNL:
-		if pos < len(haystack) && haystack[pos] != '\n' {
-			width := runeWidth(haystack[pos:])
-			if width > 0 {
-				return b.backtrackFindLongestWithState(haystack, pos+width, s.RuneAnyNotNL(), st)
+			switch s.Kind() {
+			case StateMatch:
+				if !longest {
+					st.stack = stack[:0]
+					return pos
+				}
+				if pos > best {
+					best = pos
+				}
+				break thread
+
+			case StateByteRange:
+				lo, hi, next := s.ByteRange()
+				if pos < len(haystack) {
+					c := haystack[pos]
+					if c >= lo && c <= hi {
+						pos++
+						nfaState = next
+						continue thread
+					}
+				}
+				break thread
+
+			case StateSparse:
+				if pos >= len(haystack) {
+					break thread
+				}
+				c := haystack[pos]
+				for _, tr := range s.Transitions() {
+					if c >= tr.Lo && c <= tr.Hi {
+						pos++
+						nfaState = tr.Next
+						continue thread
+					}
+				}
+				break thread
+
+			case StateSplit:
+				left, right := s.Split()
+				// Left branch first; the right one waits on the stack
+				stack = append(stack, backtrackJob{state: right, pos: pos})
+				nfaState = left
+				continue thread
+
+			case StateEpsilon:
+				nfaState = s.Epsilon()
+				continue thread
+
+			case StateCapture:
+				_, _, next := s.Capture()
+				nfaState = next
+				continue thread
+
+			case StateLook:
+				look, next := s.Look()
+				if checkLookAssertion(look, haystack, pos) {
+					nfaState = next
+					continue thread
+				}
+				break thread
+
+			case StateRuneAny:
+				// Match any rune (including newline)
+				if pos < len(haystack) {
+					width := runeWidth(haystack[pos:])
+					if width > 0 {
+						pos += width
+						nfaState = s.RuneAny()
+						continue thread
+					}
+				}
+				break thread
+
+			case StateRuneAnyNotNL:
+				// Match any rune except newline
+				if pos < len(haystack) && haystack[pos] != '\n' {
+					width := runeWidth(haystack[pos:])
+					if width > 0 {
+						pos += width
+						nfaState = s.RuneAnyNotNL()
+						continue thread
+					}
+				}
+				break thread
 			}
+			// StateFail and anything unknown
+			break thread
 		}
-		return -1
 
-	case StateFail:
-		return -1
+		if len(stack) == 0 {
+			st.stack = stack
+			return best
+		}
+		job := stack[len(stack)-1]
+		stack = stack[:len(stack)-1]
+		nfaState, pos = job.state, job.pos
 	}
-
-	return -1
 }
 
 // runeWidth returns the width in bytes of the first UTF-8 rune in b.
